@@ -52,6 +52,12 @@ fn main() {
             s.reqs = s.reqs.iter().map(|r| ConstraintRequest::highest_priority(*r.constraint())).collect();
             s
         };
+        // one system in eight is large, or has its guesses thousands to millions of units away from the
+        // solution (powers of two keep the rational oracle exact)
+        let sys = if i % 8 == 5 {
+            let (kp, kg) = *rng.pick(&[(10, 10), (0, 14), (17, 0), (20, 20), (0, 24), (24, 3), (27, 27)]);
+            with_magnitudes(sys, kp, kg)
+        } else { sys };
         let rows: Vec<(Vec<(u32, f64)>, f64)> = sys.reqs.iter().flat_map(|r| affine_rows(r.constraint()).unwrap()).collect();
         let res = solve(&sys.reqs, sys.guesses.clone(), sys.config());
         let (status, finals, iters) = match &res {
